@@ -255,6 +255,87 @@ void eventual_visibility() {
   vrt::nontrivial();
 }
 
+// long histories (more messages per location than the model keeps): coherence and happens-before visibility must
+// survive the pruning of old messages, for every staleness window
+void corr_long() {
+  auto* v = new Vars();
+  int bad = 0, last = 0;
+  two(
+    [&] {
+      for (int i = 1; i <= 60; ++i) v->x.store(i, rlx);
+    },
+    [&] {
+      for (int i = 0; i < 60; ++i) {
+        int r = v->x.load(rlx);
+        if (r < last) bad++;
+        last = r;
+      }
+    });
+  if (bad) vrt::fail("litmus_forbidden", "CoRR (60 writes): a later read returned an older value %d times", bad);
+  vrt::nontrivial();
+}
+void mp_long() {
+  auto* v = new Vars();
+  int r1 = -1, r2 = -1, r3 = -1;
+  two(
+    [&] {
+      for (int i = 1; i <= 40; ++i) v->y.store(i, rlx);
+      v->data = 42;
+      v->x.store(1, rel);
+      for (int i = 41; i <= 80; ++i) v->y.store(i, rlx);
+    },
+    [&] {
+      r1 = v->x.load(acq);
+      if (r1 == 1) {
+        r2 = v->data;
+        r3 = v->y.load(rlx);
+      }
+    });
+  if (r1 == 1 && r2 != 42) vrt::fail("litmus_forbidden", "MP (long): flag seen but data not");
+  if (r1 == 1 && r3 < 40) vrt::fail("litmus_forbidden", "MP (long): flag seen but y=%d is older than the 40 writes that happen-before the flag", r3);
+  vrt::nontrivial();
+}
+// Dekker with seq_cst fences after a long run of unrelated writes by both threads
+void sb_fences_long() {
+  auto* v = new Vars();
+  int r1 = -1, r2 = -1;
+  two(
+    [&] {
+      for (int i = 1; i <= 30; ++i) v->z.store(i, rlx);
+      v->x.store(1, rlx);
+      fence(sc);
+      r1 = v->y.load(rlx);
+    },
+    [&] {
+      for (int i = 31; i <= 60; ++i) v->z.store(i, rlx);
+      v->y.store(1, rlx);
+      fence(sc);
+      r2 = v->x.load(rlx);
+    });
+  if (r1 == 0 && r2 == 0) vrt::fail("litmus_forbidden", "SB with seq_cst fences (long): both loads returned 0");
+  vrt::nontrivial();
+}
+// hazard-pointer handshake: reader publishes a hazard (store; seq_cst fence; re-read pointer), reclaimer unlinks
+// (store; seq_cst fence; read hazard). Either the reader sees the unlink or the reclaimer sees the hazard.
+void hp_handshake() {
+  auto* v = new Vars();
+  int hz_seen = -1, ptr_seen = -1;
+  v->x.store(1, rlx); // pointer: 1 = linked
+  two(
+    [&] {
+      v->y.store(1, rlx); // hazard
+      fence(sc);
+      ptr_seen = v->x.load(acq);
+    },
+    [&] {
+      v->x.store(0, rel); // unlink
+      fence(sc);
+      hz_seen = v->y.load(rlx);
+    });
+  if (ptr_seen == 1 && hz_seen == 0) vrt::fail("litmus_forbidden", "hazard handshake: reader validated the pointer and the reclaimer missed the hazard");
+  vrt::nontrivial();
+}
+
 const vrt::Cfg cfgs[] = {
   vrt::Cfg{"mp_relacq", &mp_relacq, "quick"},
   vrt::Cfg{"mp_relaxed_race", &mp_relaxed_race, "quick"},
@@ -269,6 +350,10 @@ const vrt::Cfg cfgs[] = {
   vrt::Cfg{"wrc", &wrc, "quick"},
   vrt::Cfg{"rmw_atomicity", &rmw_atomicity, "quick"},
   vrt::Cfg{"eventual_visibility", &eventual_visibility, "quick"},
+  vrt::Cfg{"corr_long", &corr_long, "quick"},
+  vrt::Cfg{"mp_long", &mp_long, "quick"},
+  vrt::Cfg{"sb_fences_long", &sb_fences_long, "quick"},
+  vrt::Cfg{"hp_handshake", &hp_handshake, "quick"},
 };
 const vrt::Harness harness{"litmus", cfgs, (int)(sizeof cfgs / sizeof cfgs[0])};
 } // namespace
